@@ -46,7 +46,7 @@ def cps(s):
 def call(fn, s, plus=False, default=None):
     """One public call on the real code -> event (the trace judge's record format)."""
     from falcon import uri
-    e = {'fn': fn, 's': cps(s), 'plus': bool(plus), 'out': [], 'out2': [], 'port': -1, 'err': False, 'alt': [],
+    e = {'fn': fn, 's': cps(s), 'plus': bool(plus), 'out': [], 'out2': [], 'port': -1, 'err': False, 'alt': [], 'alt0': [],
          'exc': ''}
     try:
         if fn == 'decode':
@@ -64,6 +64,11 @@ def call(fn, s, plus=False, default=None):
                 e['alt'] = cps(h2) if isinstance(h2, str) else [-1]
             except Exception:
                 e['alt'] = [-1]
+            try:        # ... and with an empty port spelled ("host:")
+                h0, p0 = uri.parse_host(s + ':') if default is None else uri.parse_host(s + ':', default)
+                e['alt0'] = cps(h0) if isinstance(h0, str) and p0 == default else [-1]
+            except Exception:
+                e['alt0'] = [-1]
         else:
             f = getattr(uri, fn)
             out = f(s)
@@ -74,7 +79,7 @@ def call(fn, s, plus=False, default=None):
         e['out'] = cps(out)
     except Exception as ex:  # the property promises totality
         e['err'] = True
-        e['out'], e['out2'], e['port'], e['alt'] = [], [], -1, []
+        e['out'], e['out2'], e['port'], e['alt'], e['alt0'] = [], [], -1, [], []
         e['exc'] = repr(ex)[:200]
     return e
 
@@ -129,7 +134,7 @@ def run(ctx):
     ctx.trusted_base = ['TLC evaluation of spec/UriOps.tla', "CPython bytes.decode('utf-8', 'replace')"]
     ctx.assumptions = ['strings are sequences of Unicode scalar values (no lone surrogates)',
                        'valid authority = reg-name/IPv4 or bracketed IP literal, optionally ":" and 1..6 digits '
-                       '(RFC 3986 also allows an empty port; the property speaks of a numeric port)',
+                       '(an empty port, "host:", is valid too and carries no port number: the default is returned)',
                        'Cython twin falcon/cyutil/uri.pyx: stale-or-absent, not checked (Cython unavailable)']
     rng = ctx.rng
 
@@ -178,8 +183,8 @@ def run(ctx):
             ok = not e['err'] and e['out'] == c['out'] and e['port'] == c['port']
             if ok and fn.endswith('check_escaped'):
                 ok = e['out2'] == e['out']
-            if ok and fn == 'parse_host' and c['valid'] and c['port'] == -1:
-                ok = e['alt'] == e['out']
+            if ok and fn == 'parse_host' and c['valid'] and not c['colon']:
+                ok = e['alt'] == e['out'] and e['alt0'] == e['out']
             if not ok:
                 suspects.append(e)
     ctx.traces_validated += len(cases)
@@ -320,9 +325,9 @@ def run(ctx):
              '[vF.host-1~x]', '[v1.a]', '[V7.x:y;z=1]', '[vAB.~]', 'xn--bcher-kva.example',
              "sub!$&'()*+,;=x", '%E4%BD%A0.example', 'a-b_c~d.e', '[1:2:3:4:5:6:7:8]', '[fe80::1%25en0]']
     for h in hosts:
-        for p in ['', '0', '1', '80', '443', '8080', '65535', '00080', '999999'] + \
+        for p in ['', None, '0', '1', '80', '443', '8080', '65535', '00080', '999999'] + \
                  [str(rng.randrange(100000)) for _ in range(ctx.pick(3, 30))]:
-            s = h + (':' + p if p else '')
+            s = h + ':' if p is None else h + (':' + p if p else '')
             for d in (None, BIG_DEFAULT):
                 events[('parse_host', d, s)] = call('parse_host', s, False, d)
                 ctx.case({'fn': 'parse_host', 's': s}, nontrivial=True, key=('parse_host', d, s))
